@@ -64,7 +64,8 @@ impl Scenario for Co {
         true
     }
     fn init(&self, w: &mut World) -> X {
-        let layer = CoalesceLayer::new(|r: &Req| r.key);
+        // keys with a deliberately weak Hash: every key used here collides with every other
+        let layer = CoalesceLayer::new(|r: &Req| trv_core::inner::WeakKey(r.key));
         if self.sync_panic_first {
             w.inner.lock().unwrap().sync_panic_calls = vec![0];
         }
